@@ -166,7 +166,21 @@ pub fn history(rng: &mut Rng, c: &Corpus, deep: bool) -> Circuit {
                 12 | 13 => R1Op::Negate(ix(rng)),
                 14 => R1Op::Double(ix(rng)),
                 15 => R1Op::Select(ix(rng), ix(rng), ix(rng)),
-                16 => R1Op::ScalarMul(ix(rng), rng.below(40) as u16, mode(rng)),
+                16 => {
+                    if rng.chance(1, 4) {
+                        // long scalars: lengths around the limb and field sizes, odd lengths, a zero limb in the middle
+                        let mut b = rng.bytes(32);
+                        match rng.below(4) {
+                            0 => b[8..16].iter_mut().for_each(|x| *x = 0),
+                            1 => b.iter_mut().for_each(|x| *x = 0xff),
+                            _ => {}
+                        }
+                        let n = *rng.pick(&[63u16, 64, 65, 127, 128, 129, 250, 251, 252, 253, 255, 256]);
+                        R1Op::ScalarMulBits(ix(rng), hex(&b), n, rng.below(4) as u8)
+                    } else {
+                        R1Op::ScalarMul(ix(rng), rng.below(40) as u16, mode(rng))
+                    }
+                }
                 17 => R1Op::IsEq(ix(rng), ix(rng)),
                 18 => R1Op::IsZero(ix(rng)),
                 19 => R1Op::EnforceEq(ix(rng), ix(rng)),
